@@ -187,6 +187,7 @@ type CodecSet struct {
 	// encoder statements folded by foldPutUint
 	writeOverride map[ast.Stmt]ast.Expr
 	writeSkip     map[ast.Stmt]bool
+	guardAlias    map[types.Object]ast.Expr
 }
 
 // ExtractCodecs finds every struct type M in nasMessage with methods EncodeM(*bytes.Buffer) error
@@ -948,6 +949,14 @@ func (cs *CodecSet) evalLenCond(c *Codec, recv string, e ast.Expr, L int, ie *st
 	if tv, ok := cs.info.Types[e]; ok && tv.Value != nil {
 		return tv.Value, true
 	}
+	// a local introduced by the guard's own init statement (`if l := a.X.GetLen(); ...`)
+	if id, ok := e.(*ast.Ident); ok && cs.guardAlias != nil {
+		if obj := cs.info.Uses[id]; obj != nil {
+			if al, ok := cs.guardAlias[obj]; ok {
+				e = ast.Unparen(al)
+			}
+		}
+	}
 	if x, ok := cs.lenExpr(c, recv, e); ok {
 		if *ie == "" {
 			*ie = x
@@ -1035,8 +1044,22 @@ func (cs *CodecSet) evalLenCond(c *Codec, recv string, e ast.Expr, L int, ie *st
 // Len values for which the guard does NOT return.
 func (cs *CodecSet) guardStmt(c *Codec, recv string, s ast.Stmt, bufEq map[string]bool) (ie string, set LenSet, errOK bool, why string, ok bool) {
 	is, isIf := s.(*ast.IfStmt)
-	if !isIf || is.Init != nil || is.Else != nil {
+	if !isIf || is.Else != nil {
 		return
+	}
+	cs.guardAlias = nil
+	if is.Init != nil {
+		// `if l := <expr>; cond(l)`: l stands for <expr> in the condition
+		as, isAs := is.Init.(*ast.AssignStmt)
+		if !isAs || as.Tok != token.DEFINE || len(as.Lhs) != 1 || len(as.Rhs) != 1 {
+			return
+		}
+		id, isID := as.Lhs[0].(*ast.Ident)
+		if !isID || cs.info.Defs[id] == nil {
+			return
+		}
+		cs.guardAlias = map[types.Object]ast.Expr{cs.info.Defs[id]: as.Rhs[0]}
+		defer func() { cs.guardAlias = nil }()
 	}
 	var name string
 	if _, good := cs.evalLenCond(c, recv, is.Cond, 0, &name, bufEq); !good || name == "" {
